@@ -294,7 +294,34 @@ pub fn run(cfg: &Config) -> i32 {
             // an output-direction variant of the same message
         }
     }
-    let _ = tok::is_tag;
+    // generated maximal / random well-formed messages per type (every option, every optional field):
+    // JSON shapes of sibling types differ only in rarely used fields, which the corpus may lack
+    {
+        use crate::spec::layout::{self, Gen, GenOptions};
+        let mut first_env: std::collections::HashMap<String, (String, String)> = Default::default();
+        for (mt, text) in &bases {
+            if let Some(b4) = crate::corpus::block4_of(text)
+                && let Some(i) = text.find(b4.as_str())
+            {
+                first_env.entry(mt.clone()).or_insert((text[..i].to_string(), text[i + b4.len()..].to_string()));
+            }
+        }
+        for lay in layout::layouts() {
+            for vi in 0..cfg.tier.pick(6u64, 30u64) {
+                let mut r = crate::rng::Rng::new(cfg.seed, &format!("c12:{}", lay.mt), vi);
+                let opt = GenOptions { optional_per_mille: 800, max_repeat: 2, max_seq: 2, maximal: vi % 2 == 0, minimal: false };
+                let mut g = Gen { r: &mut r, counter: vi as usize * 40, mt: lay.mt, opt, force_option: None, force_include: None };
+                let mut sink = Local::default();
+                let Some(mut w) = super::c03::build(&lay, &mut g, &mut sink, "c12") else { continue };
+                if lay.mt == "204" && w.fields.len() >= 2 && w.fields[1].tag == "19" {
+                    w.fields.swap(0, 1);
+                }
+                let Some((pre, post)) = first_env.get(lay.mt) else { continue };
+                let toks: Vec<tok::Token> = w.fields.iter().map(|f| tok::Token { tag: f.tag.clone(), content: f.content.clone() }).collect();
+                bases.push((lay.mt.to_string(), format!("{pre}\n{}\n{post}", tok::render(&toks, false, false))));
+            }
+        }
+    }
     // 30 x 30 typed matrix
     for (a, text) in &bases {
         for r in MESSAGES {
